@@ -360,11 +360,12 @@ def run_case(case, driver, stats=None, trace=None):
             cont, fdt, sdt = op["container"], op["fdtype"], op["sdtype"]
             if n == 0:
                 cont = "array"
-            data = {"solution": np.zeros((n, 2)), "objective": column(op["objective"], fdt, cont),
+            odt = op.get("odtype") or fdt
+            data = {"solution": np.zeros((n, 2)), "objective": column(op["objective"], odt, cont),
                     "measures": column(op["measures"], fdt, cont, (n, d))}
-            info = {"status": column(op["status"], sdt, cont), "value": column(op["value"], fdt, cont)}
+            info = {"status": column(op["status"], sdt, cont), "value": column(op["value"], odt, cont)}
             if kind == 6 or op.get("all_fields"):
-                info["novelty"] = column(op["novelty"], fdt, cont)
+                info["novelty"] = column(op["novelty"], odt, cont)
             if op.get("all_fields"):
                 data["extra_field"] = np.arange(n)
             if case["archive"]["type"] == "density":
@@ -647,6 +648,15 @@ def gen_rank(rng, tier, d, dir_mode, n=None):
     fdt = rng.choice(["float64"] * 11 + ["float32"] * 6 + ["int64"] * 2)
     cont = "list" if rng.random() < 0.12 else "array"
     sdt = rng.choice(INT_DTYPES)
+    if rng.random() < 0.12:
+        # the ranking keys as unsigned integers or booleans (counts, success flags): still ordered best-first by their VALUE
+        odt = rng.choice(["uint8", "uint16", "uint64", "bool"])
+        top = 1 if odt == "bool" else 6
+        keys = lambda: [rng.randint(0, top) for _ in range(n)]
+        return {"op": "rank", "n": n, "fdtype": fdt, "odtype": odt, "sdtype": sdt, "container": "array",
+                "objective": keys(), "value": keys(), "novelty": keys(),
+                "density": gen_column(rng, n, fdt if not fdt.startswith("int") else "float64"),
+                "status": gen_status(rng, n), "measures": gen_measures(rng, n, d, fdt, dir_mode), "all_fields": rng.random() < 0.3}
     return {"op": "rank", "n": n, "fdtype": fdt, "sdtype": sdt, "container": cont,
             "objective": gen_column(rng, n, fdt), "value": gen_column(rng, n, fdt), "novelty": gen_column(rng, n, fdt),
             "density": gen_column(rng, n, fdt if not fdt.startswith("int") else "float64"),
